@@ -41,15 +41,23 @@ PROP = Property(
                      "extracted text of the signer's SignerCertifierService: get_beacon_to_sign Some(b) ==> b is for the time point's epoch and for a signed entity type that is allowed at that time point, not locked and NOT ALREADY SIGNED "
                      "according to the signed-beacon store (at most one signature per signed entity and beacon); compute_publish_single_signature Ok ==> the signature the single signer computed for THIS message (if any) was published under the "
                      "beacon's signed entity type and the beacon was marked as signed",
-                     ["signer SignerCertifierService::get_beacon_to_sign", "signer SignerCertifierService::list_available_signed_entity_types", "signer SignerCertifierService::compute_publish_single_signature"])],
+                     ["signer SignerCertifierService::get_beacon_to_sign", "signer SignerCertifierService::list_available_signed_entity_types", "signer SignerCertifierService::compute_publish_single_signature"]),
+           VerusUnit("signer_runner", "verus/C20/signer_runner.tmpl.rs",
+                     "extracted text of the signer's runner: register_signer_to_aggregator Ok ==> if no key material is stored for the recording epoch e + 1: new key material is built for THIS party's stake in the distribution stored under "
+                     "e + 1 with the registration parameters, the registration sent to the aggregator is FOR e + 1 and carries the verification key and key signature of exactly that key material, and exactly that key material is saved under "
+                     "e + 1; update_stake_distribution(e) Ok ==> a non-empty distribution is already stored under e + 1 (kept) or the chain's current one is saved there",
+                     ["signer SignerRunner::register_signer_to_aggregator", "signer SignerRunner::update_stake_distribution"])],
     replays=[dict(crate="mithril-signer", file="mithril-signer/src/services/certifier.rs", module="replays/c20_signer_certifier.rs"),
+             dict(crate="mithril-signer", file="mithril-signer/src/runtime/runner.rs", module="replays/c20_signer_runner.rs", inside_tests=True),
              dict(crate="mithril-aggregator", file="mithril-aggregator/src/services/epoch_service.rs", module="replays/c20_aggregator_epoch_service.rs"),
              dict(crate="mithril-signer", file="mithril-signer/src/services/epoch_service.rs", module="replays/c20_signer_epoch_service.rs")],
     assumptions=[
         "signer_gate: the `.iter().any(closure)` over the signer list is a contract fn; key equality (ProtocolKey ==) is an uninterpreted relation; debug!/warn! statements removed; that the state machine consults this gate before signing is read off the source (mithril-signer runtime/runner.rs can_sign_current_epoch)",
         "only the epoch-offset algebra shared by signer and aggregator and the signer-side eligibility gate are decided; epochs < 2^63 - 8 (offset_by casts to i64; real epochs are < 2^32)",
-        "both epoch services are under contract for WHICH offset function keys WHICH store access (units signer_gate and aggregator_epoch_service; the offset functions are callee contracts there, proved on the real code by the Kani unit); "
-        "the signer's runner (register_signer_to_aggregator / update_stake_distribution: key material and stakes saved under offset_to_recording_epoch) and the aggregator's signer_registration_store / single_signature_repository call sites are read off the source, not proved",
+        "both epoch services and the signer's runner are under contract for WHICH offset function keys WHICH store access (units signer_gate, aggregator_epoch_service, signer_runner; the offset functions are callee contracts there, "
+        "proved on the real code by the Kani unit); the aggregator's signer_registration_store / single_signature_repository call sites are read off the source, not proved",
+        "signer_runner unit: the operational-certificate file parsing block and the KES-evolutions closure are replaced by contract fns; key generation (MithrilProtocolInitializerBuilder::build) is a callee contract; "
+        "RunnerError constructors -> StdError; RwLock read guard -> reference; strip_cfg future_snark",
         "signer_certifier unit: signed-beacon store, configuration provider, entity lock, single signer and publisher (async trait objects) are contract stubs; that mark_beacon_as_signed comes AFTER a successful publish is implied for the Ok "
         "case only (an Err after marking is not excluded by the contract; the replay test checks it on the real code)",
         "epoch-service units: stores, providers and the era checker (async trait objects) are contract stubs over uninterpreted functions of their content; `.await`, debug!, with_context(..) removed; iterator expressions replaced by contract fns "
